@@ -59,6 +59,11 @@ func hexList(pp [][]byte) string {
 	return strings.Join(ss, ",")
 }
 
+// history for the reused parser: scripts that fail inside an open conditional, leave one open, or end early
+var histParser = &interpreter.DefaultOpcodeParser{}
+var histCount int
+var histPrimes = [][]byte{{0x51, 0x63, 0x4c, 0x05, 0x01}, {0x64, 0x4d, 0xff}, {0x51}, {0x63, 0x63, 0x02, 0x01}, {0x63}, {0x63, 0x6a, 0x01}, {0x6a, 0x4c}, {0x63, 0x68, 0x68, 0x4e, 0x01}}
+
 func observe(s []byte) *scriptObs {
 	o := &scriptObs{}
 	var sb strings.Builder
@@ -98,6 +103,29 @@ func observe(s []byte) *scriptObs {
 			ss = append(ss, fmt.Sprintf("%d.%d.%s.%s", op.Value(), op.Length(), u, sg.Habbr(op.Data)))
 		}
 		sb.WriteString(";P+" + strings.Join(ss, ","))
+	}
+	// H: a parser value that has parsed other scripts before (among them ones that fail inside an open
+	// conditional) gives the same result as a fresh one
+	if !o.parsePanic {
+		prime := histPrimes[histCount%len(histPrimes)]
+		histCount++
+		common.Safely(func() { _, _ = histParser.Parse(bscript.NewFromBytes(append([]byte{}, prime...))) })
+		var ops2 interpreter.ParsedScript
+		var e2 error
+		if p, msg := common.Safely(func() { ops2, e2 = histParser.Parse(scr()) }); p {
+			note("Parse(reused parser)", msg)
+		} else {
+			same := (e2 == nil) == (perr == nil)
+			if same && e2 == nil {
+				same = len(ops2) == len(o.ops)
+				for i := 0; same && i < len(ops2); i++ {
+					same = ops2[i].Value() == o.ops[i].Value() && ops2[i].Length() == o.ops[i].Length() && bytes.Equal(ops2[i].Data, o.ops[i].Data)
+				}
+			}
+			if !same {
+				c.Violate("Parse/result-depends-on-what-the-parser-parsed-before", fmt.Sprintf("after parsing %x: fresh parser err=%v %d opcodes, reused parser err=%v %d opcodes", prime, perr, len(o.ops), e2, len(ops2)), common.Hex(s))
+			}
+		}
 	}
 	// C: Parse with ErrorOnCheckSig
 	{
@@ -508,6 +536,25 @@ func main() {
 	for _, h := range [][]byte{{0x4e, 0xff, 0xff, 0xff, 0xff}, {0x4e, 0xff, 0xff, 0xff, 0x7f, 1, 2}, {0x4e, 0, 0, 0, 0x80}, {0x4d, 0xff, 0xff, 1}, {0x4c, 0xff}, {0x4e, 0, 0, 0}, {0x4d, 0}, {0x4c}, {0x4b}} {
 		truncatedPush([]byte{0x51}, h)
 	}
+	// declared lengths at the top of each length field's range (where header size + length wraps in the
+	// field's own width) with 0, 1, 3 or 100 bytes present, bare and after an opcode
+	for _, present := range []int{0, 1, 3, 100} {
+		d := sg.Fill(r, present)
+		var hs [][]byte
+		for l := 250; l <= 255; l++ {
+			hs = append(hs, []byte{0x4c, byte(l)})
+		}
+		for _, l := range []int{0xfffa, 0xfffb, 0xfffc, 0xfffd, 0xfffe, 0xffff, 0x8000, 0x7fff, 0xff00} {
+			hs = append(hs, []byte{0x4d, byte(l), byte(l >> 8)})
+		}
+		for _, l := range []uint32{0xfffffff9, 0xfffffffa, 0xfffffffb, 0xfffffffc, 0xfffffffd, 0xfffffffe, 0xffffffff, 0x80000000, 0x7fffffff, 0x7ffffffb, 0x7ffffffa, 0xffff0000} {
+			hs = append(hs, []byte{0x4e, byte(l), byte(l >> 8), byte(l >> 16), byte(l >> 24)})
+		}
+		for i, h := range hs {
+			pre := [][]byte{nil, {0x76}, {0x51, 0x63}}[i%3]
+			truncatedPush(pre, append(append([]byte{}, h...), d...))
+		}
+	}
 	// each length byte of PUSHDATA2/4 on its own, followed by more data than that byte's weight
 	// (the 2^24 byte can only be seen to be "more than is there")
 	c.PerShard = 1
@@ -626,6 +673,6 @@ func main() {
 		hexCase("random", h)
 	}
 
-	c.Stats.Rule = "(1) every byte string of length <= 2 run through DecodeParts, Parse (with and without ErrorOnCheckSig), Unparse, ToASM, NewFromASM, hex and JSON on the Go side (65 793; <= 3 bytes in thorough, Go-level predicates only), the model evaluated on all of length <= 1 plus the seed-chosen residue class mod 8 of the 2-byte ones in quick and on all in thorough; (2) EncodeParts/PushDataPrefix/MinPushSize on item lists with lengths 0,1,2,3,74..77,254..257,65535,65536 and random mixes; (3) every push form x every boundary length complete, cut by one byte, cut to the header, cut to one byte, hostile 32-bit lengths, zero-length pushes; (4) grammar-generated scripts (non-push opcodes, pushes of all forms incl. non-minimal) with OP_RETURN at top level / inside IF / after a stray ENDIF, truncated at every position, fixed OP_RETURN shapes, random bytes; (5) ASM round trip on generated domain scripts and every non-push opcode, NewFromASM / NewFromHexString / UnmarshalJSON on arbitrary token strings. distinct = distinct input bytes / item-length vector / string; non-trivial = non-empty input"
+	c.Stats.Rule = "(1) every byte string of length <= 2 run through DecodeParts, Parse (with and without ErrorOnCheckSig), Unparse, ToASM, NewFromASM, hex and JSON on the Go side (65 793; <= 3 bytes in thorough, Go-level predicates only), the model evaluated on all of length <= 1 plus the seed-chosen residue class mod 8 of the 2-byte ones in quick and on all in thorough; (2) EncodeParts/PushDataPrefix/MinPushSize on item lists with lengths 0,1,2,3,74..77,254..257,65535,65536 and random mixes; (3) every push form x every boundary length complete, cut by one byte, cut to the header, cut to one byte, hostile 32-bit lengths, declared lengths at the top of each length field's range (250..255, 0xfffa..0xffff, 0xfffffff9..0xffffffff, 2^31 +- few) with 0/1/3/100 bytes present, zero-length pushes; (4) grammar-generated scripts (non-push opcodes, pushes of all forms incl. non-minimal) with OP_RETURN at top level / inside IF / after a stray ENDIF, truncated at every position, fixed OP_RETURN shapes, random bytes; (5) ASM round trip on generated domain scripts and every non-push opcode, NewFromASM / NewFromHexString / UnmarshalJSON on arbitrary token strings. distinct = distinct input bytes / item-length vector / string; non-trivial = non-empty input"
 	c.Finish()
 }
